@@ -107,6 +107,13 @@ def dir_case(task):
             kw.update(extra)
             rv0, ri0, p0 = list(rv), list(ri), dict(param)
             out['reads'] += 1
+            if kw.get('split_per_it'):
+                # cold cache for every read (cache histories are C12's)
+                import glob as _g
+                for d in _g.glob(os.path.join(root, spec['simname'],
+                                              'output-*', spec['simname'],
+                                              'all_iterations')):
+                    shutil.rmtree(d, ignore_errors=True)
             try:
                 with quiet(), seams.file_order(fileorder):
                     data = reading.read_data(param, **kw)
@@ -236,34 +243,39 @@ def build_tasks(tier):
     shapes = {0: (6, 5, 4), 1: (4, 6, 5)}
     bx = {0: etgen.tensor_boxes(shapes[0], (2, 2, 1)),
           1: etgen.tensor_boxes(shapes[1], (1, 2, 2))}
+    S = 128      # Carpet-like iteration numbers (set order != sorted order)
+    r0 = lambda *v: [S * i for i in v]      # noqa: E731
     rsets = {
-        1: [{'its': {0: [0, 2, 4], 1: [0, 1, 2, 3, 4]}, 'boxes': bx}],
-        2: [{'its': {0: [0, 2, 4], 1: [0, 1, 2, 3, 4]}, 'boxes': bx},
-            {'its': {0: [4, 6, 8], 1: [4, 5, 6, 7, 8]}, 'boxes': bx}],
-        3: [{'its': {0: [0, 2, 4], 1: [0, 1, 2, 3, 4]}, 'boxes': bx},
-            {'its': {0: [2, 4, 6], 1: [2, 3, 4, 5, 6]}, 'boxes': bx},
-            {'its': {0: [6, 8], 1: [6, 7, 8]}, 'boxes': {
+        1: [{'its': {0: r0(0, 2, 4), 1: r0(0, 1, 2, 3, 4)}, 'boxes': bx}],
+        2: [{'its': {0: r0(0, 2, 4), 1: r0(0, 1, 2, 3, 4)}, 'boxes': bx},
+            {'its': {0: r0(4, 6, 8), 1: r0(4, 5, 6, 7, 8)}, 'boxes': bx}],
+        3: [{'its': {0: r0(0, 2, 4), 1: r0(0, 1, 2, 3, 4)}, 'boxes': bx},
+            {'its': {0: r0(2, 4, 6), 1: r0(2, 3, 4, 5, 6)}, 'boxes': bx},
+            {'its': {0: r0(6, 8), 1: r0(6, 7, 8)}, 'boxes': {
                 0: etgen.tensor_boxes(shapes[0], (1, 1, 1)),
                 1: etgen.tensor_boxes(shapes[1], (1, 1, 1))}}],
     }
     var_reqs = [['alpha'], ['betaup3'], ['betax', 'gxy'], ['gammadown3'],
                 ['gxx', 'alpha', 'rho0'], ['Ktrace', 'velup3']]
-    it_reqs0 = [[0], [4], [4, 2], [8, 0, 4, 4], [6, 2, 100], [2, 6, 4]]
-    it_reqs1 = [[1], [4, 3], [5, 4, 4, 0]]
-    for (grouped, proc), nres in itertools.product(LAYOUTS, (1, 2, 3)):
+    it_reqs0 = [r0(0), r0(4), r0(4, 2), r0(8, 0, 4, 4), r0(6, 2) + [9999],
+                r0(2, 6, 4), r0(4, 0, 2)]
+    it_reqs1 = [r0(1), r0(4, 3), r0(5, 4, 4, 0), r0(2, 0, 1, 4, 3)]
+    for (grouped, proc), nres, split in itertools.product(
+            LAYOUTS, (1, 2, 3), (False, True)):
         restarts = rsets[nres]
         spec = base_spec('sim', grouped, proc, 2, shapes, restarts,
                          variables=etgen.ALLVARS)
         reqs = []
+        ex = {'split_per_it': split}
         for rv in var_reqs:
             for ri in it_reqs0:
-                reqs.append((rv, ri, 0, -1, {}))
+                reqs.append((rv, ri, 0, -1, ex))
             for ri in it_reqs1:
-                reqs.append((rv, ri, 1, -1, {}))
+                reqs.append((rv, ri, 1, -1, ex))
             for r in range(nres):
-                reqs.append((rv, [4, 2], 0, r, {}))
+                reqs.append((rv, r0(4, 2), 0, r, ex))
         tasks.append((spec, reqs, 'sorted', False,
-                      (f"F4:restarts={nres}",
+                      (f"F4:restarts={nres}:split={int(split)}",
                        f"layout={int(grouped)}{int(proc)}")))
     return tasks
 
